@@ -1,0 +1,63 @@
+//go:build verif
+
+// Contracts checked by /verif/govc (comment-only; compiled only with -tags verif).
+package constraint
+
+// Abstract state of a Solver[E]: value and solved flag of every wire, and the coefficient table.
+//@ ghost val F
+//@ ghost solved bool
+//@ ghost coeff F
+
+// ---- the interface the blueprints are verified against (implemented by constraint/<curve>.solver)
+//@ contract iface Solver.GetValue
+//@   pure
+//@   requires cID == 0 || solved(recv, vID)
+//@   ensures result == fmul(coeff(recv, cID), val(recv, vID)) && (cID == 0 ==> result == f0) && (cID == 1 ==> result == val(recv, vID))
+//@ contract iface Solver.GetCoeff
+//@   pure
+//@   ensures result == coeff(recv, cID)
+//@ contract iface Solver.IsSolved
+//@   pure
+//@   ensures result == solved(recv, vID)
+//@ contract iface Solver.SetValue
+//@   requires !solved(recv, vID)
+//@   assigns val(recv, vID), solved(recv, vID)
+//@   ensures val(recv, vID) == f && solved(recv, vID)
+//@ contract iface Field.Add
+//@   pure
+//@   ensures result == fadd(a, b)
+//@ contract iface Field.Sub
+//@   pure
+//@   ensures result == fsub(a, b)
+//@ contract iface Field.Mul
+//@   pure
+//@   ensures result == fmul(a, b)
+//@ contract iface Field.Neg
+//@   pure
+//@   ensures result == fneg(a)
+//@ contract iface Field.Inverse
+//@   pure
+//@   ensures (a == f0 ==> !result.1) && (a != f0 ==> result.1 && result.0 == finv(a))
+//@ contract iface Field.String
+//@   pure
+//@ contract iface Element.IsZero
+//@   pure
+//@   ensures result == (recv == f0)
+
+// value of the gate qL*a + qR*b + qO*c + qM*a*b + qC of the instruction with calldata cd = [xa xb xc qL qR qO qM qC ..]
+//@ spec func gateAt(s Solver, cd []uint32, a F, b F, o F) F = fadd(fadd(fadd(fadd(fmul(coeff(s, cd[3]), a), fmul(coeff(s, cd[4]), b)), fmul(coeff(s, cd[5]), o)), fmul(coeff(s, cd[6]), fmul(a, b))), coeff(s, cd[7]))
+//@ spec func gate(s Solver, cd []uint32) F = gateAt(s, cd, val(s, cd[0]), val(s, cd[1]), val(s, cd[2]))
+//@ spec func twoSolved(s Solver, cd []uint32) bool = (solved(s, cd[0]) && solved(s, cd[1])) || (solved(s, cd[0]) && solved(s, cd[2])) || (solved(s, cd[1]) && solved(s, cd[2]))
+
+// Solve of the generic sparse gate: on success the gate holds under the resulting assignment and no
+// previously solved wire changed; it fails only if no value of the unsolved wire satisfies the gate.
+//@ contract (*BlueprintGenericSparseR1C).Solve
+//@   props C06-blueprints
+//@   requires s != nil && len(inst.Calldata) >= 9 && twoSolved(s, inst.Calldata)
+//@   nopanic
+//@   ensures @gate-holds result == nil && inst.Calldata[8] == 0 ==> gate(s, inst.Calldata) == f0
+//@   ensures @frame forall w int :: old(solved(s, w)) ==> solved(s, w) && val(s, w) == old(val(s, w))
+//@   ensures @fails-only-if-unsat-A result != nil && !old(solved(s, inst.Calldata[0])) ==> forall x F :: gateAt(s, inst.Calldata, x, val(s, inst.Calldata[1]), val(s, inst.Calldata[2])) != f0
+//@   ensures @fails-only-if-unsat-B result != nil && old(solved(s, inst.Calldata[0])) && !old(solved(s, inst.Calldata[1])) ==> forall x F :: gateAt(s, inst.Calldata, val(s, inst.Calldata[0]), x, val(s, inst.Calldata[2])) != f0
+//@   ensures @fails-only-if-unsat-C result != nil && old(solved(s, inst.Calldata[0])) && old(solved(s, inst.Calldata[1])) && !old(solved(s, inst.Calldata[2])) ==> forall x F :: gateAt(s, inst.Calldata, val(s, inst.Calldata[0]), val(s, inst.Calldata[1]), x) != f0
+//@   ensures @fails-only-if-violated result != nil && old(solved(s, inst.Calldata[0])) && old(solved(s, inst.Calldata[1])) && old(solved(s, inst.Calldata[2])) ==> gate(s, inst.Calldata) != f0
